@@ -42,6 +42,24 @@ DERR = ["DNil", None, "DCtxCanceled", "DCtxDeadline", "DBreakerUnavailable", "DR
         "DSqlScanFail", "DSqlScanDeadline", "DWrappedDeadline", "DWrappedBreakerUnavailable", "DWrappedSqlNoRows",
         "DWrappedSqlTxDone", "DStallTimeout", "DStallCancel"]
 SQL_CUSTOM = (10, 11, 12, 21, 22, 31, 32)    # 10*i + n: accepted iff 1 <= i <= n
+# the context of a wrapper call over its life (third field of a wrapper call): live / cancelled before the call /
+# live on entry and cancelled while the downstream runs / live on entry and past its deadline when the downstream
+# returns / past its deadline before the call
+XCTX = ["XLive", "XDone", "XCancelledAtReturn", "XExpiredAtReturn", "XExpired"]
+SQL_CTX_KINDS = (7, 10, 11, 12, 13, 14)      # *Ctx methods whose statement the driver wrapper can interrupt (not Transact)
+
+
+def wmodes(k, rej, cls):
+    """context modes the executors can force deterministically for this call"""
+    if rej:                                   # a rejected call has no downstream run that could end the context
+        return [0] if k == 6 else [0, 1, 4]
+    if k == 6 or k == 22:                     # real redis client; Timeout chain (the end of the context races with the handler)
+        return [0, 1, 4]
+    if k in SQL_KINDS:
+        if k in SQL_CTX_KINDS and cls not in (14, 15, 16) and (cls != 0 or k in (7, 10)):
+            return [0, 1, 2, 3, 4]
+        return [0, 1, 4]
+    return [0, 1, 2, 3, 4]
 
 
 def sql_classes(k):
@@ -608,7 +626,9 @@ class C01(Property):
         ops = []
         for _ in range(rng.choice([0, 1, 1, 2, 3, 4])):
             r = rng.random()
-            if r < 0.3:
+            if chain < 2 and rng.random() < 0.15:
+                ops.append(rng.choice([3, 4]))       # the request's context ends here; the handler goes on
+            elif r < 0.3:
                 ops.append(1)
             elif r < 0.55:
                 ops.append(2)
@@ -648,18 +668,28 @@ class C01(Property):
             k = rng.choice(kinds)
             if w == "sql":
                 cls, code = rng.choice(sql_classes(k))
-                calls.append([k, rng.choice([0, 0, 1]), rng.choice([0, 0, 0, 1]), cls, code])
+                rej = rng.choice([0, 0, 1])
+                calls.append([k, rej, self._wmode(rng, k, rej, cls), cls, code])
                 continue
             cls = rng.choice(classes)
             if k == 6:
                 cls = rng.choice([0, 5, 10])
             if k == 22 and rng.random() < 0.3:
                 cls = rng.choice([21, 22])      # still running when the timeout fires / the client cancels
-            calls.append([k, rng.choice([0, 0, 1]), rng.choice([0, 0, 0, 1]), cls, rng.randint(1, 16) if cls == 1 else 0])
+            rej = rng.choice([0, 0, 1])
+            calls.append([k, rej, self._wmode(rng, k, rej, cls), cls, rng.randint(1, 16) if cls == 1 else 0])
         return {"w": w, "wcalls": calls}
+
+    @staticmethod
+    def _wmode(rng, k, rej, cls):
+        m = rng.choice([0, 0, 0, 0, 1, 2, 2, 3, 3, 4])
+        return m if m in wmodes(k, rej, cls) else 0
 
     def _wrapper_corpus(self):
         cs = []
+        # every wrapper call site x the context over the life of the call {live, cancelled before, cancelled while the
+        # downstream runs, deadline passed while the downstream runs, past its deadline before} x the site's whole
+        # acceptability table, admitted and rejected.  Deterministic, independent of VERIF_SEED (seeded C01-3).
         for w in ("grpcc", "grpcs", "redis"):
             _, _, kinds, classes = WPKG[w]
             calls = []
@@ -668,8 +698,8 @@ class C01(Property):
                 for cls in cl:
                     for code in (range(1, 17) if cls == 1 else [0]):
                         for rej in (0, 1):
-                            for cd in (0, 1):
-                                if k == 6 and rej + cd == 2:
+                            for cd in wmodes(k, rej, cls):
+                                if k == 6 and cd == 4 and cls != 0:
                                     continue
                                 calls.append([k, rej, cd, cls, code])
             cs.append({"w": w, "wcalls": calls})
@@ -680,9 +710,17 @@ class C01(Property):
             for j, (cls, code) in enumerate(sql_classes(k)):
                 calls.append([k, 0, 0, cls, code])
                 if k != 8 and j % 5 == k % 5:
-                    calls += [[k, 1, 0, cls, code], [k, 0, 1, cls, code], [k, 1, 1, cls, code]]
+                    calls += [[k, 1, 0, cls, code], [k, 0, 1, cls, code], [k, 1, 1, cls, code], [k, 0, 4, cls, code]]
         cs.append({"w": "sql", "wcalls": calls[0::2]})
         cs.append({"w": "sql", "wcalls": calls[1::2]})
+        # sqlx *Ctx methods: the context ends (cancel / deadline) while the driver executes the statement
+        calls = []
+        for k in SQL_CTX_KINDS:
+            for cls, code in sql_classes(k):
+                for cd in (2, 3):
+                    if cd in wmodes(k, 0, cls):
+                        calls.append([k, 0, cd, cls, code])
+        cs.append({"w": "sql", "wcalls": calls})
         B = 10 ** 15 + 777
         big = TWO53 - 1
         # REST: 2xx/4xx accepted, 5xx rejected, a panicking handler, then throttling with forced draws
@@ -700,12 +738,17 @@ class C01(Property):
         # an informational 1xx header, then the final 5xx, no TimeoutHandler: the last status is the outcome
         reqs = [[3, 0, MS, 0, big, 0, 103, 500] for _ in range(14)] + [[3, 1, MS, 0, 0, 0, 103, 503] for _ in range(6)]
         cs.append({"w": "rest", "base": B + 6, "reqs": reqs})
+        # the request's context ends in mid-handler (3: the client cancels, 4: the request's deadline passes), the handler
+        # goes on and answers 5xx: a failure like any other - total failure, the requests drawing 0 must be shed
+        for chain, ops in ((0, [3, 500]), (1, [4, 503]), (0, [4, 1, 500]), (1, [500, 3])):
+            reqs = [[3, chain, MS, 0, big, 0] + ops for _ in range(14)] + [[3, chain, MS, 0, 0, 0] + ops for _ in range(6)]
+            cs.append({"w": "rest", "base": B + 9, "reqs": reqs})
         # every chain x end x a few scripts on a breaker that admits (3 s apart)
         reqs = []
         for chain in range(4):
             for end in ((0, 1, 2, 3) if chain >= 2 else (0, 1)):
                 for ops in ([], [1], [2], [404], [500], [1, 2], [500, 1, 2], [2, 500], [200, 503], [103, 500], [500, 200],
-                            [1, 500], [204, 2, 1]):
+                            [1, 500], [204, 2, 1]) + (([3], [4], [3, 500], [4, 502], [500, 4, 200]) if chain < 2 else ()):
                     reqs.append([3, chain, 3 * SEC, MS, 0, end] + ops)
         cs.append({"w": "rest", "base": B + 7, "reqs": reqs[0::2]})
         cs.append({"w": "rest", "base": B + 8, "reqs": reqs[1::2]})
@@ -829,7 +872,8 @@ class C01(Property):
     def _hreq(self, q):
         if q[0] == 3:
             ch = ["(ChPlain false)", "(ChPlain true)", "(ChTimeout false)", "(ChTimeout true)"][q[1]]
-            ops = clist(["HWrite" if o == 1 else "HFlush" if o == 2 else "HWriteHeader %d" % o for o in q[6:]])
+            ops = clist(["HWrite" if o == 1 else "HFlush" if o == 2 else "HCtxDone false" if o == 3 else "HCtxDone true" if o == 4
+                         else "HWriteHeader %d" % o for o in q[6:]])
             end = ["HReturn", "HPanicEnd", "HStallTimeout", "HStallCancel"][q[5]]
             return "mkHReq (HScript %s %s %s) %s %s (mkU %d)" % (ch, ops, end, cz(q[2]), cz(q[3]), q[4])
         out = {0: "(HCode %s)" % cz(q[1] or 200), 1: "(HPanic None)", 2: "(HPanic (Some %s))" % cz(q[1])}[q[0]]
@@ -865,7 +909,7 @@ class C01(Property):
                         if o[1] in (0, 1) else "mkRO %s (RSPanic (-1))" % cz(o[0]) for o in obs["obs"]])
             return "mkCase %s [] [] [] [] [] [] [] %s %s [] [] []" % (cz(case["base"]), rs, ro)
         if case.get("w"):
-            wc = clist(["mkWC %s %s %s %s" % (WK[k[0]], cbool(k[1] == 1), cbool(k[2] == 1), self._derr(k[3], k[4]))
+            wc = clist(["mkWC %s %s %s %s" % (WK[k[0]], cbool(k[1] == 1), XCTX[k[2]], self._derr(k[3], k[4]))
                         for k in case["wcalls"]])
             wo = clist(["mkWO %s %s %s %s %s" % (cz(o[0]), cz(o[1]), cz(o[2]), cz(o[3]), self._seen(o[4], o[5]))
                         for o in obs["obs"]])
@@ -976,11 +1020,14 @@ class C01(Property):
                     fs.append("wrap_rest_end_" + ["return", "panic", "timed_out", "client_cancel"][q[5]])
                     if q[5] == 2 and q[1] >= 2 and 2 in q[6:]:
                         fs.append("wrap_rest_timed_out_after_flush")
+                    if 3 in q[6:] or 4 in q[6:]:
+                        fs.append("wrap_rest_ctx_ended_in_handler")
             return fs
         if case.get("w"):
             fs = ["wrap_" + case["w"]]
             fs += ["wrap_" + WK[k] for k in sorted(set(c[0] for c in case["wcalls"]))]
             fs += ["wrap_call"] * len(case["wcalls"])
+            fs += ["wrap_ctx_" + XCTX[m] for m in sorted(set(c[2] for c in case["wcalls"]))]
             return fs
         if case.get("conc"):
             _, trows = self._conc_rows(case, obs)
